@@ -30,6 +30,7 @@ type rawCall struct {
 	cancel   context.CancelFunc
 	finished bool
 	done     bool
+	w        *poolWorld
 }
 
 func (w *poolWorld) rawPick(cmd, key string, pub *publication, withG bool, dl time.Duration, cancellable bool) *rawCall {
@@ -47,8 +48,10 @@ func (w *poolWorld) rawPick(cmd, key string, pub *publication, withG bool, dl ti
 	rc.ctx = ctx
 	rc.res, rc.err = pub.picker.Pick(balancer.PickInfo{FullMethodName: methodOf(cmd), Ctx: ctx})
 	rc.finished = true
+	rc.w = w
 	if rc.err == nil {
 		rc.sc, _ = rc.res.SubConn.(*fakeSC)
+		w.pairPlaced++
 	}
 	return rc
 }
@@ -70,6 +73,9 @@ func (rc *rawCall) complete(outcome string) {
 	}
 	rc.res.Done(di)
 	rc.done = true
+	if rc.w != nil {
+		rc.w.pairCompleted++
+	}
 }
 
 func callOf(c *call) *rawCall {
@@ -459,6 +465,9 @@ func init() {
 // race detector on (the build instruments every field/map access).
 func checkC10(c *vsched.RunCtx) {
 	runPoolDrivers(c, "", true)
+	if c.Replay == nil || c.Replay.Harness == "pairs" {
+		runPairs(c, true)
+	}
 	runStreamRaces(c)
 	runGMEDrivers(c, true)
 	c.Assume("happens-before race detection over instrumented accesses to fields of structs declared in grpcgcp and to maps; slice elements are not tracked; accesses inside gRPC/protobuf are out of scope",
